@@ -202,7 +202,8 @@ TEXT = ("Fault enumeration: for each generated problem (~440 quick / ~30 000 tho
         "independent re-evaluation of the merit function at the knob values left in the container, and the user's action "
         "is made to raise at every call position up to 12 (transient and persistent variants), checking that knobs and "
         "active flags equal log row 0; limit-violation failures are produced by tightening limits after construction. "
-        "The problem families themselves are sampled.")
+        "The problem families themselves are sampled."
+        ' Plus moved-then-disabled scenarios (manual steps, disable without clear_log, faulted solve) and the family `pinned` (solution just beyond a limit, finite-difference step of the size of the tolerance).')
 NOTE = ("Trusted: the harness's own deterministic merit function for re-evaluation; row 0 of opt.log() read before the "
         "solve as the reference for restoration.")
 TECHNIQUE = "runtime monitoring with fault injection: independent re-evaluation oracle on return + action faults injected at every call position, restoration compared with the recorded log row 0"
